@@ -244,6 +244,7 @@ void runBehaviour(Ctx &ctx, LoopPeer &peer, const QString &caseId, const QJsonAr
         }
         ev["o"] = e.observe();
         ctx.emit_(ev);
+        ctx.out.flush();  // if the next step kills the process this line says how far the execution got
     }
     if (peer.isOpen()) {
         peer.cut();
@@ -260,8 +261,12 @@ QXV_DRIVER(iq)
     LoopPeer peer;
     auto behs = ctx.behaviours();
     int n = 0;
+    const int first = ctx.optInt("first", 1);  // resume after an execution that crashed the process
     for (const auto &bv : behs) {
-        runBehaviour(ctx, peer, QString("q%1").arg(++n), bv.toObject()["steps"].toArray());
+        if (++n < first) {
+            continue;
+        }
+        runBehaviour(ctx, peer, QString("q%1").arg(n), bv.toObject()["steps"].toArray());
     }
     return 0;
 }
